@@ -759,9 +759,10 @@ class SymEx:
         """range-for over a built-in array of constant extent = the index loop over its elements"""
         rng = self.eval(n["range"], env, fn)
         ty = fn.ntype(n["range"]) or ""
-        m = re.search(r"\[(\d+)\]", ty)
-        if m and "<" in ty.split("[")[0]:
-            m = None
+        # built-in array: the extents are the bracket groups at the END of the type (`const Cls<A, B>::DataType[2]`, `int[3][2]`)
+        m = re.search(r"((?:\[\d+\])+)\s*$", ty.replace("(&)", ""))
+        if m:
+            m = re.match(r"\[(\d+)\]", m.group(1))
         if m is None:
             m = re.search(r"^(?:const )?std::array<.*, (\d+)>(?: &| const &)?$", ty.strip())      # std::array<T, N> = T[N]
         if not isinstance(rng, Loc) or not m:
